@@ -90,6 +90,23 @@ def big_epoch(sym, digits):
     sym.check("arch", res["arch"] == "x86_64")
 
 
+def long_directory(sym, n_dir, with_rpm):
+    """the directory in front of the file name may be long (deep trees): only the file name is parsed"""
+    d = sym.str("dir", n_dir, minlen=1, alphabet=["d", "/"])
+    name = sym.str("name", 1, minlen=1, alphabet=["a-z"])
+    version = sym.str("version", 1, minlen=1, alphabet=["0-9"])
+    release = sym.str("release", 1, minlen=1, alphabet=["0-9"])
+    text = d + "/" + name + "-" + version + "-" + release + ".noarch" + (".rpm" if with_rpm else "")
+    sym.cover("built")
+    res = parse_nvra(text)
+    sym.cover("parsed")
+    sym.check("name", res["name"] == name)
+    sym.check("epoch", res["epoch"] == 0)
+    sym.check("version", res["version"] == version)
+    sym.check("release", res["release"] == release)
+    sym.check("arch", res["arch"] == "noarch")
+
+
 def check_nevra_canonical(sym, with_dir, with_rpm, n_name, n_ver, n_rel, n_dir):
     """Rpms._check_nevra re-formats the parsed parts canonically: name-epoch:version-release.arch.
     With with_dir = with_rpm = False the input is itself canonical, i.e. this is the fixed point claim."""
@@ -123,6 +140,8 @@ def jobs(tier, seed):
     for with_dir, with_epoch, with_rpm in ((False, False, False), (False, True, True), (True, False, True), (True, True, False)):
         out.append({"harness": "nvra_roundtrip",
                     "params": {"with_dir": with_dir, "with_epoch": with_epoch, "with_rpm": with_rpm, "n_name": 3, "n_ver": 2, "n_rel": 2, "n_dir": 2}})
+    for wr in (False, True):
+        out.append({"harness": "long_directory", "params": {"n_dir": 300 if big else 100, "with_rpm": wr}, "solver_timeout_ms": 600000})
     for digits in ((11, 14, 19, 25) if big else (11, 19)):
         out.append({"harness": "big_epoch", "params": {"digits": digits}})
     for second_rpm in (False, True):
@@ -144,11 +163,12 @@ def jobs(tier, seed):
 
 
 META = {
-    "expected_covers": {"big_epoch": ["built", "parsed"], "nvra_history": ["built", "parsed"], "nvra_roundtrip": ["built", "parsed"], "check_nevra_canonical": ["built", "checked"]},
+    "expected_covers": {"long_directory": ["built", "parsed"], "big_epoch": ["built", "parsed"], "nvra_history": ["built", "parsed"], "nvra_roundtrip": ["built", "parsed"], "check_nevra_canonical": ["built", "checked"]},
     "assumptions": [
         "names over [A-Za-z0-9._+-] made of non-empty dash-separated segments, versions and releases over [A-Za-z0-9._+~^] (non-empty, no dash), arch any entry of the real "
         "RPM_ARCHES table, epoch absent or 0..10^9, optional directory prefix over the name alphabet plus '/', optional '.rpm' suffix",
         "length bounds per job: quick name<=7, version/release<=4, directory<=3 (plus four jobs at 3/2/2/2); thorough 12/8/8/8; longer parts are outside the claim",
+        "long_directory: a directory prefix of up to 100 (thorough 300) characters over {d, /} in front of a minimal file name",
         "big_epoch: epochs of exactly 11 and 19 (thorough also 14 and 25) decimal digits with parts of 1-2 characters",
         "call histories (nvra_history): two parses in one process, parts of 1-2 characters, the caller edits the first result in between",
         "Rpms._check_nevra: canonical re-formatting of the same parts (epoch always present)",
